@@ -363,6 +363,7 @@ OrdLimit(pred, rows) ==
      ELSE SubSeq(sorted, 1, IF pred.limit < Len(sorted) THEN pred.limit ELSE Len(sorted))
 
 PredRows(pred, ctx) ==
+  IF pred.rules = <<>> THEN <<>> ELSE    \* a predicate without rules (nil) is empty
   LET rules == pred.rules
       all == Flatten([i \in 1..Len(rules) |-> RuleRows(rules[i], ctx)])
       r1 == rules[1]
